@@ -1011,12 +1011,21 @@ def work_C07(run, rng, budget):
                                  {"mol": mol_repr(m), "text": mtext if "mixed" in how else text, "opts": info["opts"]})
         run.sample({"mol": mol_repr(m), "text_head": text[:400]})
     # malformed stream: must be rejected with the library's exception or read consistently with the model
-    for _ in range(40 * budget):
+    for mi in range(40 * budget):
         m = G.gen_mol(rng, max_n=6)
         text, _ = RD.render_v3000(m, rng, {"star": False})
         ls = text.splitlines()
         kind = rng.randint(0, 5)
-        if kind == 0 and len(ls) > 8:
+        if mi % 8 == 7:
+            # a misspelt block marker (own choice, not drawn from the stream)
+            marker = ["BEGIN ATOM", "END ATOM", "BEGIN BOND", "END BOND", "BEGIN CTAB"][(mi // 8) % 5]
+            import re as _re
+            pat = _re.compile(r"\s+".join(marker.split()) + r"(?=\s|-?$)")
+            ls = [pat.sub(lambda mo: mo.group(0) + "S", l) for l in ls]
+            kind = -1
+        if kind == -1:
+            pass
+        elif kind == 0 and len(ls) > 8:
             del ls[rng.randrange(4, len(ls))]
         elif kind == 1:
             ls[5] = ls[5].replace("COUNTS", "COUNT")
@@ -1032,6 +1041,13 @@ def work_C07(run, rng, budget):
         line, real, _ = R.op_moltext("\n".join(ls))
         run.corr(line, real, "atom-order")
         corr_file(run, rng.choice(["\n", "\r\n", "\r"]).join(ls))
+    run.corr(*R.op_splice([]), "exact")        # the splicer on no lines at all
+    # the suffix check of graph_from_file (pathlib's notion of a suffix is the harness's, not the model's)
+    ok_text = "\n  x\n\n  0  0  0     0  0            999 V3000\nM  V30 BEGIN CTAB\nM  V30 COUNTS 1 0 0 0 0\nM  V30 BEGIN ATOM\n" \
+              "M  V30 1 C 0 0 0 0\nM  V30 END ATOM\nM  V30 END CTAB\nM  END\n"
+    for name in ("m.mol", "m.txt", "m.MOL", "m", "m.mol.bak", "a.b.mol", ".mol", "m.sdf"):
+        run.corr(*R.op_filepath(name, ok_text), "atom-order")
+        run.stats["file_suffix"] += 1
     # star atoms in the forms the reader treats specially: a bond to a star atom without ENDPTS (polymers: ignored),
     # an ENDPTS list whose count is wrong, a bond between two star atoms, ENDPTS before / after other keywords
     for _ in range(6 * budget):
